@@ -1416,3 +1416,48 @@ Proof.
   destruct (x_remove_empty (scfg_of c ns)); [|reflexivity].
   rewrite clean_shapes_id by exact Hne. reflexivity.
 Qed.
+
+(** the text from any successful run whose profile is renderable *)
+Lemma run_shexc_from_shapes fa c thr g ns ins P C ID shapes :
+  full_ns c = Some ns ->
+  track (r_tau c) (tmode_of c) (r_cap c) g = inl ins ->
+  profile (pcfg_of c) ins g = inl (P, C, ID) ->
+  (forall ce, In ce P -> entries_ok (scfg_of c ns) ce /\ prefixb (Str "@") (fst ce) = false) ->
+  run_shapes fa c thr g = inl (ns, shapes) ->
+  exists text, run_shexc fa c thr g = inl text.
+Proof.
+  intros Hns Ht Hp Hok Hr. unfold run_shexc. rewrite Hr.
+  assert (Hs : shex fa (scfg_of c ns) thr P C = inl shapes).
+  { unfold run_shapes in Hr. rewrite Hns in Hr. fold (tmode_of c) in Hr. rewrite Ht, Hp in Hr.
+    destruct (shex fa (scfg_of c ns) thr P C) as [s|e]; [|discriminate]. injection Hr as <-. reflexivity. }
+  destruct (render_total ns (zcfg_of c ns) eq_refl shapes) as [t Ht'].
+  - apply Forall_forall. intros sh Hsh.
+    destruct (shex_rstmt fa (scfg_of c ns) thr P C shapes (fun ce H => proj1 (Hok ce H)) Hs sh Hsh)
+      as [Hq (ce & Hce & Hn)].
+    split; [|exact Hq]. rewrite Hn. apply shape_name_prefixize. apply Hok; exact Hce.
+  - unfold zcfg_of in Ht'. rewrite Ht'. eauto.
+Qed.
+
+Theorem run_shexc_total_all_classes c thr g :
+  r_targets c = None -> wf_frac thr -> fle BAlg thr (fone BAlg) = true ->
+  (N.of_nat (List.length g) < 2 ^ 53)%N ->
+  typing_okb (r_tau c) g && forallb (sentinel_free (r_tau c)) g && prefix_free c &&
+  forallb (class_iri_ok (r_tau c)) g = true ->
+  exists text, run_shexc BAlg c thr g = inl text.
+Proof.
+  intros Hnone Hw Hle Hg H. apply andb_true_iff in H. destruct H as [H H5].
+  destruct (run_total_all_classes c thr g Hnone Hw Hle Hg H) as (ns & shapes & Hr).
+  apply andb_true_iff in H. destruct H as [H H4]. apply andb_true_iff in H. destruct H as [H1 H2].
+  apply typing_okb_ok in H1.
+  destruct (front_total c g H1) as (ins & P & C & ID & Ht & Hp).
+  assert (Hns : full_ns c = Some ns).
+  { rewrite run_shapes_front in Hr. destruct (full_ns c) as [ns0|]; [|discriminate].
+    destruct (front c g) as [[P0 C0]|]; [|discriminate].
+    destruct (shex BAlg (scfg_of c ns0) thr P0 C0); [|discriminate]. injection Hr as <- _. reflexivity. }
+  apply (run_shexc_from_shapes BAlg c thr g ns ins P C ID shapes Hns Ht Hp); [|exact Hr].
+  intros ce Hce. split; [exact (profile_entries_renderable c g ns ins P C ID H2 Ht Hp ce Hce)|].
+  destruct (profile_class_keys c g ins P C ID Ht Hp ce Hce) as [Hin|(t & o & Hin & Htp & Hto & Hid)].
+  - rewrite Hnone in Hin. destruct Hin.
+  - rewrite forallb_forall in H5. specialize (H5 t Hin). unfold class_iri_ok in H5.
+    rewrite Htp, str_eqb_refl, Hto, Hid in H5. cbn in H5. apply negb_true_iff in H5. exact H5.
+Qed.
